@@ -41,7 +41,8 @@ CHECKS["C02"] = dict(
     rule="rapid-generated histories; non-trivial = history in which a publish is delivered to a connection holding >=2 filters after >=1 effective "
          "unsubscribe/disconnect; distinct = distinct case value.",
     assumptions=["a barrier not answered within 30 s is reported as a hang (violation)"],
-    legs=[dict(name="sessions", test="^TestSessions$", quick=dict(n=800, procs=4, timeout=300), thorough=dict(n=40000, procs=14, timeout=2400))],
+    legs=[dict(name="sessions", test="^TestSessions$", quick=dict(n=800, procs=4, timeout=300), thorough=dict(n=40000, procs=14, timeout=2400)),
+          dict(name="write-failure", test="^TestTransientWriteFailure$", quick=dict(n=600, procs=2, timeout=300), thorough=dict(n=60000, procs=8, timeout=2400))],
 )
 
 CHECKS["C16"] = dict(
@@ -269,6 +270,7 @@ CHECKS["C08"] = dict(
     rule="each (session, cut offset, ending) execution is one evaluation; non-trivial = cut after the CONNECT packet plus at least one further byte of a session "
          "that has requests (acknowledged state exists); distinct = distinct (session, cut, ending).",
     legs=[dict(name="cut-points", test="^TestCutPoints$", quick=dict(n=40, procs=4, timeout=600), thorough=dict(n=3000, procs=14, timeout=3000)),
+          dict(name="write-faults", test="^TestWriteFaults$", quick=dict(n=120, procs=4, timeout=600), thorough=dict(n=12000, procs=14, timeout=3000)),
           dict(name="burst", test="^TestBurstWhileWatcherSlow$", kind="plain", quick=dict(n=2, procs=1, timeout=300), thorough=dict(n=20, procs=1, timeout=600))],
 )
 
